@@ -335,4 +335,287 @@ theorem handle_rep {s : St} {pre : Bytes} {recs : Nat → List Bytes} (h : Rep s
   rw [checkTail_id hrep]
   exact ⟨hrep, rfl, rfl⟩
 
+/-- after `settle`: the metadata is not waiting to be written and, when the loop offers `ReadChan`,
+`pending` is the head of the queue -/
+def Ready (s : St) (recs : Nat → List Bytes) : Prop :=
+  s.needSync = false ∧ (canRead s = true → PendB s recs)
+
+theorem canRead_nil_lt {s : St} {pre : Bytes} {recs : Nat → List Bytes} (h : Rep s pre recs)
+    (hc : canRead s = true) (hr : recs s.rf = []) : s.rf < s.wf := by
+  have hcont : s.fs.content s.rf = pre := by rw [h.crf, hr, enc_nil, List.append_nil]
+  simp only [canRead, Bool.or_eq_true, decide_eq_true_eq] at hc
+  cases hc with
+  | inl h1 => exact h1
+  | inr h2 =>
+    have hle := h.le
+    by_cases e : s.rf = s.wf
+    · exfalso
+      have hw := h.wp
+      rw [← e, hcont] at hw
+      have := h.rp
+      omega
+    · omega
+
+theorem settleStep_rep {s : St} {pre : Bytes} {recs : Nat → List Bytes} (h : Rep s pre recs) :
+    ((settleStep s).1 = true → Rep (settleStep s).2 [] recs ∧ (settleStep s).2.rf = s.rf + 1 ∧
+        (settleStep s).2.wf = s.wf ∧ s.rf < s.wf ∧ recs s.rf = []) ∧
+    ((settleStep s).1 = false → Rep (settleStep s).2 pre recs ∧ Ready (settleStep s).2 recs ∧
+        (settleStep s).2.rf = s.rf ∧ (settleStep s).2.wf = s.wf) := by
+  have ht : Rep (syncDue s) pre recs := rep_syncDue h
+  obtain ⟨f1, f2, f3, f4, f5, f6, f7, f8⟩ := syncDue_frame s
+  unfold settleStep
+  by_cases hc : canRead (syncDue s) = true
+  · rw [if_pos hc]
+    by_cases hn : (syncDue s).nrp = (syncDue s).rp
+    · rw [if_pos hn]
+      cases hr : recs (syncDue s).rf with
+      | nil =>
+        obtain ⟨r1, b, f, m, r2⟩ := readOne_nil ht hn hr
+        have hlt := canRead_nil_lt ht hc hr
+        rw [r1]
+        simp only [Bool.false_eq_true, if_false]
+        rw [r2]
+        obtain ⟨g1, g2, g3⟩ := handle_rep ht hr hlt b f m
+        refine ⟨fun _ => ⟨g1, by rw [g2, f1], by rw [g3, f2], by rw [← f1, ← f2]; exact hlt, by rw [← f1]; exact hr⟩, fun hf => absurd hf (by simp)⟩
+      | cons d rest =>
+        obtain ⟨r1, r2, r3, q1, q2, q3, q4, q5, q6⟩ := readOne_cons ht hn hr
+        rw [r1]
+        simp only [if_true]
+        refine ⟨fun hf => absurd hf (by simp), fun _ => ⟨r2, ⟨by rw [q5, f8], fun _ => r3⟩, by rw [q1, f1], by rw [q2, f2]⟩⟩
+    · rw [if_neg hn]
+      refine ⟨fun hf => absurd hf (by simp), fun _ => ⟨ht, ⟨f8, fun _ => ?_⟩, f1, f2⟩⟩
+      cases ht.pend with
+      | inl a => exact absurd a.2 hn
+      | inr b => exact b
+  · rw [if_neg hc]
+    exact ⟨fun hf => absurd hf (by simp), fun _ => ⟨ht, ⟨f8, fun hh => absurd hh hc⟩, f1, f2⟩⟩
+
+theorem settleN_rep (n : Nat) : ∀ {s : St} {pre : Bytes} {recs : Nat → List Bytes}, Rep s pre recs → s.wf - s.rf < n →
+    ∃ pre', Rep (settleN n s) pre' recs ∧ Ready (settleN n s) recs ∧ absQ (settleN n s) recs = absQ s recs ∧
+      (settleN n s).wf = s.wf := by
+  induction n with
+  | zero => intro s pre recs _ hlt; omega
+  | succ n ih =>
+    intro s pre recs h hlt
+    obtain ⟨a, b⟩ := settleStep_rep h
+    unfold settleN
+    cases hb : (settleStep s).1 with
+    | true =>
+      obtain ⟨a1, a2, a3, a4, a5⟩ := a hb
+      simp only [if_true]
+      obtain ⟨pre', i1, i2, i3, i4⟩ := ih a1 (by rw [a2, a3]; omega)
+      refine ⟨pre', i1, i2, ?_, by rw [i4, a3]⟩
+      rw [i3]
+      unfold absQ
+      rw [a2, a3]
+      have e : s.wf - s.rf + 1 = (s.wf - (s.rf + 1) + 1) + 1 := by omega
+      rw [e]
+      show _ = recs s.rf ++ qFrom recs (s.rf + 1) (s.wf - (s.rf + 1) + 1)
+      rw [a5, List.nil_append]
+    | false =>
+      obtain ⟨b1, b2, b3, b4⟩ := b hb
+      simp only [Bool.false_eq_true, if_false]
+      exact ⟨pre, b1, b2, by unfold absQ; rw [b3, b4], b4⟩
+
+theorem settle_rep {s : St} {pre : Bytes} {recs : Nat → List Bytes} (h : Rep s pre recs) :
+    ∃ pre', Rep (settle s) pre' recs ∧ Ready (settle s) recs ∧ absQ (settle s) recs = absQ s recs ∧ (settle s).wf = s.wf :=
+  settleN_rep _ h (by have := h.le; omega)
+
+/-! ### writing -/
+
+theorem appendRec_content {t : St} {pre : Bytes} {recs : Nat → List Bytes} (h : Rep t pre recs) (d : Bytes) (i : Nat) :
+    (appendRec t d).fs.content i = if i = t.wf then t.fs.content t.wf ++ dqRecord d else t.fs.content i := by
+  show FS.content { t.fs with dat := setFile t.fs.dat t.wf (some (writeAt (t.fs.content t.wf) t.wp (dqRecord d))) } i = _
+  unfold FS.content setFile
+  simp only []
+  by_cases e : i = t.wf
+  · rw [if_pos e, if_pos e, h.wp]
+    exact writeAt_append _ _
+  · rw [if_neg e, if_neg e]
+
+theorem append_rep {t : St} {pre : Bytes} {recs : Nat → List Bytes} (h : Rep t pre recs) (d : Bytes)
+    (hv : ValidRec t.cfg d) :
+    Rep (appendRec t d) pre (fun i => if i = t.wf then recs t.wf ++ [d] else recs i) ∧
+      absQ (appendRec t d) (fun i => if i = t.wf then recs t.wf ++ [d] else recs i) = absQ t recs ++ [d] := by
+  have hq : qFrom (fun i => if i = t.wf then recs t.wf ++ [d] else recs i) t.rf (t.wf - t.rf + 1) =
+      qFrom recs t.rf (t.wf - t.rf + 1) ++ [d] := by
+    have hle := h.le
+    rw [qFrom_snoc, qFrom_snoc, qFrom_congr _ recs t.rf (t.wf - t.rf) (fun j h1 h2 => by show (if j = t.wf then _ else recs j) = recs j; rw [if_neg (by omega)])]
+    have e : t.rf + (t.wf - t.rf) = t.wf := by omega
+    simp only [e, if_true, List.append_assoc]
+  refine ⟨⟨h.cfg, h.live, h.le, ?_, ?_, h.rp, ?_, ?_, ?_, ?_, ?_, ?_, ?_, ?_, ?_⟩, hq⟩
+  · intro i x hx
+    by_cases e : i = t.wf
+    · simp only [e, if_true, List.mem_append, List.mem_singleton] at hx
+      cases hx with
+      | inl h1 => exact h.vrec _ x h1
+      | inr h1 => rw [h1]; exact hv
+    · simp only [e, if_false] at hx; exact h.vrec _ x hx
+  · show (appendRec t d).fs.content t.rf = pre ++ enc (if t.rf = t.wf then recs t.wf ++ [d] else recs t.rf)
+    rw [appendRec_content h]
+    by_cases e : t.rf = t.wf
+    · rw [if_pos e, if_pos e, ← e, h.crf, enc_append, enc_cons, enc_nil, List.append_nil, List.append_assoc]
+    · rw [if_neg e, if_neg e, h.crf]
+  · intro i h1 h2
+    show (appendRec t d).fs.content i = enc (if i = t.wf then recs t.wf ++ [d] else recs i)
+    rw [appendRec_content h]
+    by_cases e : i = t.wf
+    · rw [if_pos e, if_pos e, h.cmid t.wf (by rw [← e]; exact h1) (Nat.le_refl _), enc_append, enc_cons, enc_nil, List.append_nil]
+    · rw [if_neg e, if_neg e]; exact h.cmid i h1 h2
+  · intro i h1 h2
+    show setFile t.fs.dat t.wf _ i ≠ none
+    replace h2 : i < t.wf := h2
+    unfold setFile
+    rw [if_neg (by omega)]
+    exact h.ex i h1 h2
+  · show setFile t.fs.dat t.wf _ t.wf = none ↔ t.wp + (4 + d.length) = 0
+    unfold setFile
+    rw [if_pos rfl]
+    constructor
+    · intro hh; exact absurd hh (by simp)
+    · intro hh; omega
+  · show t.wp + (4 + d.length) = ((appendRec t d).fs.content t.wf).length
+    rw [appendRec_content h, if_pos rfl, List.length_append, dqRecord_length, ← h.wp]
+  · intro i hi
+    show setFile t.fs.dat t.wf _ i = none
+    replace hi : i < t.rf ∨ t.wf < i := hi
+    unfold setFile
+    have hle := h.le
+    rw [if_neg (by omega)]
+    exact h.out i hi
+  · show t.depth + 1 = _
+    rw [h.depth]
+    show _ = ((qFrom (fun i => if i = t.wf then recs t.wf ++ [d] else recs i) t.rf (t.wf - t.rf + 1)).length : Int)
+    rw [hq, List.length_append]
+    simp
+  · cases h.pend with
+    | inl a => exact Or.inl a
+    | inr b =>
+      obtain ⟨d0, rest, b1, b2, b3⟩ := b
+      refine Or.inr ?_
+      by_cases e : t.rf = t.wf
+      · refine ⟨d0, rest ++ [d], ?_, b2, ?_⟩
+        · show (if t.rf = t.wf then recs t.wf ++ [d] else recs t.rf) = _
+          rw [if_pos e, ← e, b1]; rfl
+        · cases b3 with
+          | inl c => exact Or.inl c
+          | inr c => exact absurd c.1 (by show ¬ t.rf < t.wf; omega)
+      · refine ⟨d0, rest, ?_, b2, b3⟩
+        show (if t.rf = t.wf then recs t.wf ++ [d] else recs t.rf) = _
+        rw [if_neg e, b1]
+  · intro ho
+    obtain ⟨c1, c2, c3, c4⟩ := h.coh ho
+    have hcl : (appendRec t d).fs.content t.rf = if t.rf = t.wf then t.fs.content t.wf ++ dqRecord d else t.fs.content t.rf :=
+      appendRec_content h d t.rf
+    refine ⟨c1, ?_, ?_, ?_⟩
+    · show t.rbuf ++ ((appendRec t d).fs.content t.rf).drop t.rfd = ((appendRec t d).fs.content t.rf).drop t.nrp
+      rw [hcl]
+      by_cases e : t.rf = t.wf
+      · rw [if_pos e, ← e, List.drop_append_of_le_length c3, List.drop_append_of_le_length c4, ← List.append_assoc]
+        congr 1
+      · rw [if_neg e]; exact c2
+    · show t.rfd ≤ ((appendRec t d).fs.content t.rf).length
+      rw [hcl]
+      by_cases e : t.rf = t.wf
+      · rw [if_pos e, ← e, List.length_append]; omega
+      · rw [if_neg e]; exact c3
+    · show t.nrp ≤ ((appendRec t d).fs.content t.rf).length
+      rw [hcl]
+      by_cases e : t.rf = t.wf
+      · rw [if_pos e, ← e, List.length_append]; omega
+      · rw [if_neg e]; exact c4
+  · intro ho hlt
+    replace hlt : t.rf < t.wf := hlt
+    show t.mbr = ((appendRec t d).fs.content t.rf).length
+    rw [appendRec_content h, if_neg (by omega)]
+    exact h.mbr ho hlt
+
+theorem roll_rep {s : St} {pre : Bytes} {recs : Nat → List Bytes} (h : Rep s pre recs) (hw : 0 < s.wp) :
+    Rep (rollWrite s) pre (fun i => if i = s.wf + 1 then [] else recs i) ∧
+      absQ (rollWrite s) (fun i => if i = s.wf + 1 then [] else recs i) = absQ s recs := by
+  have hle := h.le
+  have hq : qFrom (fun i => if i = s.wf + 1 then [] else recs i) s.rf (s.wf + 1 - s.rf + 1) =
+      qFrom recs s.rf (s.wf - s.rf + 1) := by
+    have e : s.wf + 1 - s.rf + 1 = (s.wf - s.rf + 1) + 1 := by omega
+    rw [e, qFrom_snoc, qFrom_congr _ recs s.rf (s.wf - s.rf + 1) (fun j h1 h2 => by show (if j = s.wf + 1 then _ else recs j) = recs j; rw [if_neg (by omega)])]
+    have e2 : s.rf + (s.wf - s.rf + 1) = s.wf + 1 := by omega
+    simp only [e2, if_true, List.append_nil]
+  have hnone : s.fs.dat (s.wf + 1) = none := h.out _ (Or.inr (by omega))
+  refine ⟨⟨h.cfg, h.live, ?_, ?_, ?_, h.rp, ?_, ?_, ?_, ?_, ?_, ?_, ?_, ?_, ?_⟩, hq⟩
+  · show s.rf ≤ s.wf + 1; omega
+  · intro i x hx
+    by_cases e : i = s.wf + 1
+    · simp only [e, if_true] at hx; exact absurd hx (by simp)
+    · simp only [e, if_false] at hx; exact h.vrec _ x hx
+  · show s.fs.content s.rf = pre ++ enc (if s.rf = s.wf + 1 then [] else recs s.rf)
+    rw [if_neg (by omega)]; exact h.crf
+  · intro i h1 h2
+    show s.fs.content i = enc (if i = s.wf + 1 then [] else recs i)
+    replace h2 : i ≤ s.wf + 1 := h2
+    by_cases e : i = s.wf + 1
+    · rw [if_pos e, e, content_none hnone]; rfl
+    · rw [if_neg e]; exact h.cmid i h1 (by omega)
+  · intro i h1 h2
+    show s.fs.dat i ≠ none
+    replace h2 : i < s.wf + 1 := h2
+    by_cases e : i = s.wf
+    · rw [e]; intro hh; have := h.wex.mp hh; omega
+    · exact h.ex i h1 (by omega)
+  · show s.fs.dat (s.wf + 1) = none ↔ (0 : Nat) = 0
+    exact ⟨fun _ => rfl, fun _ => hnone⟩
+  · show (0 : Nat) = (s.fs.content (s.wf + 1)).length
+    rw [content_none hnone]; rfl
+  · intro i hi
+    show s.fs.dat i = none
+    replace hi : i < s.rf ∨ s.wf + 1 < i := hi
+    exact h.out i (by omega)
+  · show s.depth = _
+    rw [h.depth]
+    show _ = ((qFrom (fun i => if i = s.wf + 1 then [] else recs i) s.rf (s.wf + 1 - s.rf + 1)).length : Int)
+    rw [hq]
+  · cases h.pend with
+    | inl a => exact Or.inl a
+    | inr b =>
+      obtain ⟨d0, rest, b1, b2, b3⟩ := b
+      refine Or.inr ⟨d0, rest, ?_, b2, ?_⟩
+      · show (if s.rf = s.wf + 1 then [] else recs s.rf) = _
+        rw [if_neg (by omega)]; exact b1
+      · cases b3 with
+        | inl c => exact Or.inl c
+        | inr c => exact Or.inr ⟨by show s.rf < s.wf + 1; omega, c.2.1, c.2.2.1, c.2.2.2.1, c.2.2.2.2⟩
+  · exact h.coh
+  · intro ho _
+    show (if s.rf = s.wf then s.wp else s.mbr) = (s.fs.content s.rf).length
+    by_cases e : s.rf = s.wf
+    · rw [if_pos e, e]; exact h.wp
+    · rw [if_neg e]; exact h.mbr ho (by omega)
+
+theorem writeOne_rep {s : St} {pre : Bytes} {recs : Nat → List Bytes} (h : Rep s pre recs) (d : Bytes)
+    (hv : ValidRec s.cfg d) :
+    (writeOne s d).1 = true ∧ ∃ recs', Rep (writeOne s d).2 pre recs' ∧ absQ (writeOne s d).2 recs' = absQ s recs ++ [d] := by
+  unfold writeOne
+  have hvs : validSize s.cfg d = true := by
+    simp only [validSize, Bool.and_eq_true, decide_eq_true_eq]; exact hv
+  rw [if_neg (by rw [hvs]; simp)]
+  by_cases hr : needRoll s d = true
+  · rw [if_pos hr]
+    have hw : 0 < s.wp := by
+      simp only [needRoll, Bool.and_eq_true, decide_eq_true_eq] at hr; exact hr.1
+    obtain ⟨r1, r2⟩ := roll_rep h hw
+    obtain ⟨a1, a2⟩ := append_rep r1 d hv
+    exact ⟨rfl, _, a1, by rw [a2, r2]⟩
+  · rw [if_neg hr]
+    obtain ⟨a1, a2⟩ := append_rep h d hv
+    exact ⟨rfl, _, a1, a2⟩
+
+theorem writeOne_invalid (s : St) (d : Bytes) (hv : ¬ ValidRec s.cfg d) : writeOne s d = (false, s) := by
+  unfold writeOne
+  have hvs : validSize s.cfg d = false := by
+    cases hh : validSize s.cfg d with
+    | false => rfl
+    | true =>
+      simp only [validSize, Bool.and_eq_true, decide_eq_true_eq] at hh
+      exact absurd hh hv
+  rw [if_pos hvs]
+
 end Nsq.Proofs.DiskQueue
